@@ -21,6 +21,20 @@ CHECKS = {
              "hand-written (C++ modelled, not verified). Theorems are axiom-free (Print Assumptions: closed).",
         technique="Coq proof (ring + layout-generic slot lemma) + extracted-model differential tie",
         ref="6 C01"),
+    "C02": dict(
+        text="Coq theorems: for every commutative ring, mechanism, well-formed index map, sparse ordering (CSR/CSC x "
+             "standard/vector L>0), pattern containing the declared elements and the diagonal, cell count and pattern "
+             "element, SubtractJacobianTerms leaves J0 - d f_row/d y_col with the product-rule derivative of each monomial "
+             "(C02_jacobian_is_minus_derivative, through the proved model of the real sparse index tables); the declared "
+             "pattern is complete (C02_pattern_complete) and SetJacobianFlatIds only asks for declared or diagonal "
+             "elements; with uninterpreted arithmetic every stored element is one operation sequence on its own cell's "
+             "inputs in every layout. Tie: extracted model vs real ProcessSet (NonZeroJacobianElements, flat ids, every "
+             "storage slot of the Jacobian) on generated mechanisms in an exact regime x 2 compressions x 6 layouts, "
+             "plus an exact-derivative oracle in the harness.",
+        note="Trusted: Coq kernel; extraction + OCaml driver; harness and generators; model hand-written. Theorems axiom-free. "
+             "Premises of the ring theorem: names and indices of the map distinct, parameterised reactants do not reuse a state name.",
+        technique="Coq proof (ring + scatter-kernel slot lemma + sparse table proofs) + extracted-model differential tie",
+        ref="6 C02"),
     "C19": dict(
         text="Coq theorems: every logical element of a dense matrix has its own in-range slot in every layout "
              "(injectivity + range for row-major and grouped, any L>0, any shape); the Axpy/ForEach loops visit exactly the "
